@@ -574,7 +574,7 @@ class IEG:
         if k in ('field', 'variant'):
             return (k, rec(e[1]), e[2])
         if k in ('ref', 'deref', 'discr'):
-            return (k, rec(e[1]))
+            return (k, rec(e[1])) + tuple(e[2:])
         if k == 'index':
             return (k, rec(e[1]), rec(e[2]) if isinstance(e[2], tuple) else e[2])
         if k == 'slice':
